@@ -418,6 +418,25 @@ def _struct(repo, col):
     col.check(ok, R, fi, "Transform.__call__ == self.forward(x)", "calling a transform applies forward",
               f"__call__ returns {ex.returns[0].short() if ex.returns else None}", node=fi.node)
 
+    # ... and stays dynamic in every subclass: `__call__` is resolved on the class, so a class-level alias `__call__ = forward` binds
+    # THAT class's forward for good -- a subclass that overrides `forward` (NegSoftplusTransform) is then called with its parent's
+    # map, and `ChainTransform.forward`, which calls its members, leaves the bound.  A `def __call__` in a subclass must dispatch too.
+    fam = [c_ for c_ in repo.classes.values() if c_.name != "Transform" and any(b_.name == "Transform" for b_ in repo.mro(c_.name))]
+    subs = lambda c_: [d_ for d_ in fam if d_ is not c_ and any(b_.name == c_.name for b_ in repo.mro(d_.name))]
+    for c_ in fam:
+        alias = c_.attrs.get("__call__")
+        if alias is not None:
+            over = [d_.name for d_ in subs(c_) if "forward" in d_.methods]
+            col.check(not over, R, repo.method(c_.name, "forward") if "forward" in c_.methods else fi, f"{c_.name}: calling a transform dispatches to the forward of ITS class",
+                      "no subclass overrides forward", f"`__call__ = {unparse(alias)}` in the body of {c_.name} binds {c_.name}'s own function; {', '.join(over)} "
+                      f"override(s) `forward` but inherit(s) this `__call__`: calling such a transform (as ChainTransform.forward does) applies the parent's map, "
+                      f"leaves the bounds and is not undone by `inverse`", node=alias)
+        if "__call__" in c_.methods:
+            m_ = c_.methods["__call__"]
+            exm = Expander(repo, m_)
+            okm = len(exm.returns) == 1 and exm.returns[0].op == "mcall" and exm.returns[0].name == "forward" and exm.returns[0].args[0].key() == T("param", "self").key()
+            col.check(okm, R, m_, f"{c_.name}.__call__ == self.forward(x)", "dispatches to forward", f"__call__ returns {exm.returns[0].short() if exm.returns else None}", node=m_.node)
+
     # ChainTransform: forward folds the value through the transforms in order, inverse through their inverses in reverse
     # order -- as a loop `for t in seq: v = t(v)` or as functools.reduce(lambda v, t: t(v), seq, v)
     f, i = repo.method("ChainTransform", "forward"), repo.method("ChainTransform", "inverse")
@@ -446,6 +465,12 @@ def _struct(repo, col):
                 fn_t, seq_t, init_t = fa
                 init_ok = init_t.op == "param" and init_t.name == arg and bool(ex.returns) and ex.returns[0].key() == rt.key()
                 lam = fn_t.node
+                if not isinstance(lam, ast.Lambda) and isinstance(red.args[0] if red.args else None, ast.Name):
+                    # a local `def step(value, transform): return transform(value)` is the same step function
+                    d_ = [n for n in ast.walk(fi.node) if isinstance(n, ast.FunctionDef) and n is not fi.node and n.name == red.args[0].id]
+                    body_ = [x for x in d_[0].body if not (isinstance(x, ast.Expr) and isinstance(x.value, ast.Constant))] if len(d_) == 1 else []
+                    if len(body_) == 1 and isinstance(body_[0], ast.Return) and body_[0].value is not None and not d_[0].decorator_list:
+                        lam = ast.Lambda(args=d_[0].args, body=body_[0].value)
                 if isinstance(lam, ast.Lambda) and len(lam.args.args) == 2:
                     acc, el = lam.args.args[0].arg, lam.args.args[1].arg
                     body = lam.body
@@ -580,6 +605,23 @@ def _struct(repo, col):
         col.add(R, fi, f"ParamTransform.{name}", "DISCHARGED" if ok else ("VIOLATED" if shape else "UNDECIDED"),
                 f"tree_map(lambda x, tf: tf.{name}(x), params, self.tf_dict): each transform meets exactly its own entry"
                 if ok else f"ParamTransform.{name}: {detail}", node=fi.node)
+
+    # ... and the tree of transforms is kept as it was given: entry k of the list belongs to entry k of the parameters
+    fi = repo.method("ParamTransform", "__init__")
+    ex = idx.expander(repo, fi)
+    st = [s_ for s_ in ex.stores if s_.kind == "attr" and s_.key.name == "tf_dict" and s_.base.op == "param" and s_.base.name == "self"]
+    if not st:
+        col.unk(R, fi, "ParamTransform keeps the tree of transforms as given", "no store of self.tf_dict", node=fi.node)
+    else:
+        v = st[-1].value
+        p_ = fi.params[1] if len(fi.params) > 1 else None
+        same = v.op == "param" and v.name == p_
+        keyed = T.find(v, lambda x: x.op in ("dictcomp", "dictacc", "dict") or (x.op in ("call", "mcall") and x.name in ("dict", "ChainMap", "update", "setdefault")))
+        col.add(R, fi, "ParamTransform keeps the tree of transforms as given", "DISCHARGED" if same else ("VIOLATED" if keyed is not None else "UNDECIDED"),
+                "self.tf_dict = tf_dict" if same else
+                (f"the tree is rebuilt through a table keyed by parameter name (`{keyed.short(70)}`): two entries with the same name (one parameter made "
+                 f"trainable for two groups, with different bounds) end up with ONE transform, and the other entry is mapped with bounds that are not its own"
+                 if keyed is not None else f"self.tf_dict = {v.short(80)}"), node=st[-1].node)
 
     # no Python branch on the value in forward/inverse of any transform
     mi = repo.mod(TF)
